@@ -19,7 +19,7 @@ def main():
     path = sys.argv[1]
     rep = json.load(open(path))
     ob = rep.get('obligation', '')
-    m = re.match(r'(\w+)\.(\w+)\[', ob)
+    m = re.match(r'(?:(\w+)\.)?(\w+)\[', ob)
     out = {'reproduced': False, 'obligation': ob}
     if rep.get('custom_replay'):
         import importlib
@@ -31,7 +31,7 @@ def main():
         out['note'] = 'obligation name does not identify a class method'
         print(json.dumps(out))
         return
-    cls, meth = m.group(1), m.group(2)
+    cls, meth = m.group(1) or '', m.group(2)
     out['class'] = cls
     if cls not in scenarios.SCENARIOS:
         import harness.custom as custom
